@@ -133,7 +133,7 @@ func TestProp(t *testing.T) {
 		tag = mode
 	}
 	s := newStats(id, mode)
-	s.Rule, s.Assumptions = p.rule, p.assumptions
+	s.Rule, s.Assumptions = p.rule+" Later additions to the generator and sweep (classes found through seeded changes: long lists, spellings, far / decimal relatives, re-used objects, twins, ...) are listed per property in DESIGN.md section 4; the harness also re-checks cases after related calls, under other GOMAXPROCS values, after refused malformed calls and again after thousands of other cases (see coverage.counters).", p.assumptions
 	cur = s
 	defer s.write()
 	defer func() {
